@@ -45,6 +45,37 @@ class OpaqueSeries:
         return object.__getattribute__(self, "_arr")[idx]
 
 
+def _series_raw(self):
+    return RawArray(object.__getattribute__(self, "_arr"), object.__getattribute__(self, "_name"))
+
+
+OpaqueSeries.__pyvc_raw__ = _series_raw
+
+
+class RawArray(OpaqueSeries):
+    """np.array(carrier): an ndarray whose element type is the carrier's own - float32, int16, object
+    (None entries), ... - hence unknown.  The documented normalisation continues with
+    .astype(float64), which yields the canonical series; anything else done with this array (reading
+    its dtype, comparing, differencing, handing it to masked_invalid) would make the flags depend on
+    the carrier's element type and is a carrier leak."""
+
+    def astype(self, t, *a, **k):
+        from .npmodel import dtype_of
+
+        d = dtype_of(t)
+        if d.kind == "f":
+            return object.__getattribute__(self, "_arr").copy()
+        _leak("np.array(%s).astype(%s)" % (object.__getattribute__(self, "_name"), t))
+        return object.__getattribute__(self, "_arr").astype(t)
+
+    def __pyvc_array__(self):
+        _leak("np.array(%s) used before the conversion to float64" % object.__getattribute__(self, "_name"))
+        return object.__getattribute__(self, "_arr")
+
+    def __pyvc_raw__(self):
+        return self
+
+
 class OpaqueTimes(OpaqueSeries):
     """a time carrier: only `mapdates(obj)` is permitted (the check binds mapdates to a stub that
     accepts it)"""
